@@ -196,7 +196,7 @@ pub fn c14_run(args: &Args) -> i32 {
     // ~100 iterations in a fraction of a second while the command loop answers a flood of isready;
     // every stdout line must still be one well-formed line of one thread. The OS scheduling of the
     // two threads cannot be enumerated without a hook inside the print path, so this only samples it.
-    let rounds = if thorough { 40 } else { 8 };
+    let rounds = if thorough { 100 } else { 24 };
     let mut flood_lines = 0u64;
     for round in 0..rounds {
         match flood_round() {
@@ -239,25 +239,34 @@ pub fn flood_round() -> Result<(u64, Option<String>), String> {
     use std::time::Duration;
     let mut e = Engine::start(None, &[])?;
     let root = Pos::from_fen("7k/8/5K2/6Q1/8/8/8/8 w - - 0 1").map_err(|x| x.to_string())?;
-    e.send("position fen 7k/8/5K2/6Q1/8/8/8/8 w - - 0 1");
-    e.send("go depth 100");
-    let mut sent = 0usize;
+    // the go and the first 3000 isready lines go into the pipe in ONE write, and the backlog of
+    // unanswered isready lines is kept above 1500 until the bestmove arrives (at most 60000
+    // lines): the input thread prints answers at full speed for as long as the search thread
+    // prints its ~100 iteration reports
+    let chunk = |n: usize| "isready\n".repeat(n).trim_end().to_string();
+    let mut sent = 3000usize;
+    e.send(&format!("position fen 7k/8/5K2/6Q1/8/8/8/8 w - - 0 1\ngo depth 100\n{}", chunk(sent)));
     let began = std::time::Instant::now();
     while e.count_lines("bestmove") == 0 && began.elapsed() < Duration::from_secs(30) {
-        // a bounded flood (at most 3000 lines): enough to overlap with the ~100 iteration reports,
-        // small enough to be answered in time on a loaded machine
-        if sent < 3000 {
-            for _ in 0..20 {
-                e.send("isready");
-                sent += 1;
-            }
+        if sent < 60_000 && sent.saturating_sub(e.count_lines("readyok")) < 1500 {
+            e.send(&chunk(2000));
+            sent += 2000;
+        } else {
+            e.settle(Duration::from_micros(200));
         }
-        e.settle(Duration::from_micros(300));
     }
     // all answers owed (generous: nothing here is about speed)
     let t = std::time::Instant::now();
+    let mut last = (e.lines().len(), std::time::Instant::now());
     while e.count_lines("readyok") < sent && t.elapsed() < Duration::from_secs(30) {
         e.settle(Duration::from_millis(2));
+        // nothing new for six seconds: whatever is missing will not come (judged below)
+        let n = e.lines().len();
+        if n != last.0 {
+            last = (n, std::time::Instant::now());
+        } else if last.1.elapsed() > Duration::from_secs(6) {
+            break;
+        }
     }
     let lines = e.lines();
     e.send("quit");
